@@ -146,6 +146,7 @@ class FakeArray:
         self.size = g['size']
         self.shape = tuple(g['shape'])
         self.attrs = FakeAttrs(g['nattrs'], g['marshalled'])
+        self.chunks = None          # an array held in memory (chunked arrays: real datasets below)
 
     def to_numpy(self):
         return FakeNumpy(self.g['data'])
@@ -332,6 +333,11 @@ def _dataset(conv):
     return ds.assign_attrs(title='x')
 
 
+def make_cache_key_direct(ds):
+    from emsarray.operations.cache import make_cache_key
+    return make_cache_key(ds)
+
+
 def key_of(ds):
     from emsarray.operations.cache import make_cache_key
     return make_cache_key(ds.copy())
@@ -408,6 +414,36 @@ def real_dataset_checks(tier):
             notes.append(f'{conv}: could not build a Fortran-ordered twin')
         elif key_of(alt) != k0:
             V(f'real:{conv}:memory-layout', 'identical geometry values give the same key whatever the memory layout of the arrays', g)
+    # ... nor of how a lazily loaded dataset happens to be split into chunks
+    for conv in ('cf2d', 'shoc_standard', 'ugrid', 'cf1d'):
+        ds = _dataset(conv)
+        k0 = key_of(ds)
+        for dim in list(ds.dims):
+            try:
+                chunked = ds.chunk({dim: 1})
+            except Exception as e:
+                notes.append(f'{conv}: chunking not available ({type(e).__name__})')
+                break
+            if key_of(chunked) != k0:
+                V(f'real:{conv}:chunked-along-{dim}', 'identical geometry values give the same key however the arrays are chunked', dim)
+        else:
+            chunked = ds.chunk({d: 1 for d in ds.dims})
+            if key_of(chunked) != k0:
+                V(f'real:{conv}:chunked-everywhere', 'identical geometry values give the same key however the arrays are chunked', 'all dimensions')
+    # a dataset derived from one that has been hashed before is keyed by what it holds
+    for conv in ('cf1d', 'cf2d', 'ugrid'):
+        ds = _dataset(conv)
+        g = list(ds.copy().ems.get_all_geometry_names())[0] if conv != 'ugrid' else 'node_x'
+        k0 = make_cache_key_direct(ds)
+        derived = ds.copy()
+        old = ds[g]
+        if old.dtype == numpy.dtype('float64'):
+            derived[g] = old.copy(data=old.values.view('int64'))     # same bytes, same shape, same attributes: another type
+            if g in ds.coords:
+                derived = derived.set_coords(g)
+            if make_cache_key_direct(derived) == k0:
+                V(f'real:{conv}:derived-after-hashing', 'a single edit of a geometry variable changes the cache key',
+                  f'{g} reinterpreted as int64 in a dataset derived from one that was hashed before')
     # content that is neither geometry nor a data variable: coordinates left behind by a selection, auxiliary coordinates
     for conv in ('cf1d', 'ugrid'):
         base = _dataset(conv)
